@@ -18,7 +18,7 @@ static const char *prop() {
     return p;
 }
 
-enum OpK { O_NEXT = 0, O_ENTER, O_LEAVE, O_RAW, O_TOWRITER, O_FIELD, O_FIELD_C, O_FIELD_ENS, O_FIELD_ENS_C, O_NEXT_ENS, O_RAW_SCALAR, O_N };
+enum OpK { O_NEXT = 0, O_ENTER, O_LEAVE, O_RAW, O_TOWRITER, O_FIELD, O_FIELD_C, O_FIELD_ENS, O_FIELD_ENS_C, O_NEXT_ENS, O_RAW_SCALAR, O_N, O_DIVE = 0x40 };
 static const char *kOpName[] = {"next", "enter", "leave", "get_raw", "to_writer", "field_with_length", "field", "field_ensure_with_length", "field_ensure", "next_ensure", "raw_on_scalar"};
 
 static const binson_type kTypes[] = {BINSON_TYPE_OBJECT, BINSON_TYPE_ARRAY, BINSON_TYPE_BOOLEAN, BINSON_TYPE_INTEGER, BINSON_TYPE_DOUBLE, BINSON_TYPE_STRING, BINSON_TYPE_BYTES};
@@ -419,6 +419,20 @@ static bool decode_case(Src &s, DocCase &c, bool &literal) {
     return true;
 }
 
+// "dive": follow the first container at every level down to the bottom (next, enter, next, enter, ...), every sub-step
+// checked like any other; reaches the deep end of long chains, which independent random choices never do
+static bool dive(Session &ss, Src &s) {
+    for (unsigned k = 0; k < 6000; k++) {
+        if (ss.cur.done) return false;
+        if (!ss.cur.in_root() || ss.cur.pending()) { if (!ss.step(O_ENTER, s)) return false; continue; }
+        Cursor peek = ss.cur;
+        bool more = peek.next();
+        if (!ss.step(O_NEXT, s)) return false;
+        if (!more || !ss.cur.pending()) return true;   // bottom reached: the cursor is on a scalar or at the end of the innermost container
+    }
+    return true;
+}
+
 static void run_script(Session &ss, Src &s, bool literal, unsigned max_steps) {
     for (unsigned i = 0; i < max_steps; i++) {
         if (s.dry() && ss.cur.in_root() && i > 0) {
@@ -427,6 +441,7 @@ static void run_script(Session &ss, Src &s, bool literal, unsigned max_steps) {
             break;
         }
         uint8_t b = s.u8();
+        if (!literal && (b & 0x3f) == 0x3f) { if (!dive(ss, s)) break; continue; }
         unsigned kind = literal ? (b % O_N) : pick_op(b, ss.cur);
         ss.literal = literal;
         if (!ss.step(kind, s)) break;
